@@ -75,7 +75,7 @@ class G(object):
             self.features.add('attr-ns-empty')
             return '<xsl:attribute name="%s" namespace="">%s</xsl:attribute>' % (local, v), (None, local, v)
         if k < 0.8:
-            cands = [p for p, u in scope.items() if p and u and p not in ('xsl', 'al', 'res')]
+            cands = [p for p, u in scope.items() if p and u and p not in ('xsl', 'res')]
             if cands:
                 p = r.choice(cands)
                 self.features.add('attr-prefix-from-stylesheet')
@@ -173,7 +173,7 @@ class G(object):
                 exp_uri = None
                 self.features.add('element-ns-empty')
             elif j < 0.8:
-                cands = [p for p, u in scope.items() if p and u and p not in ('xsl', 'al', 'res')]
+                cands = [p for p, u in scope.items() if p and u and p not in ('xsl', 'res')]
                 p = r.choice(cands)
                 spec = 'name="%s:%s"' % (p, local)
                 exp_uri = scope[p]
@@ -213,14 +213,17 @@ class G(object):
                 l = r.choice(ALOCALS)
                 v = self.value()
                 if r.random() < 0.6:
-                    cands = [p for p, u in scope.items() if p and u and p not in ('xsl', 'al', 'res')]
+                    cands = [p for p, u in scope.items() if p and u and p not in ('xsl', 'res')]
                     p = r.choice(cands + PREFIXES[:3])
                     if p not in scope:
                         u = r.choice(URIS)
                         decls += ' xmlns:%s="%s"' % (p, u)
                         scope[p] = u
-                    key = (scope[p], l)
+                    # the alias applies to the attributes of a literal result element as well
+                    key = (ALIAS_RESULT if scope[p] == ALIAS_STYLE else scope[p], l)
                     text = ' %s:%s="%s"' % (p, l, v)
+                    if scope[p] == ALIAS_STYLE:
+                        self.uses_alias = True
                 else:
                     key = (None, l)
                     text = ' %s="%s"' % (l, v)
@@ -342,12 +345,13 @@ def trace_checks(root, res_uses_ex):
         e = stack.pop()
         used = set([e.uri] + [a.uri for a in e.attrs])
         for (p, u) in e.nsdecls:
-            if u == ALIAS_STYLE:
-                return ('alias-stylesheet-uri', 'the stylesheet side of the namespace-alias (%s) is declared on <%s>' % (u, e.name))
+            if u == ALIAS_STYLE and u not in used:
+                # (xsl:element / xsl:attribute may ask for a name in that namespace: the alias is about literal result elements only)
+                return ('alias-stylesheet-uri', 'the stylesheet side of the namespace-alias (%s) is declared on <%s>, where no name uses it' % (u, e.name))
             if u in EX.values() and u not in used:
                 return ('excluded-namespace', 'namespace %s, excluded by exclude-result-prefixes and not used by the name of <%s> or its attributes, is declared there' % (u, e.name))
-        if e.uri == ALIAS_STYLE or any(a.uri == ALIAS_STYLE for a in e.attrs):
-            return ('alias-stylesheet-uri', 'a name in the stylesheet side namespace of the alias survives on <%s>' % e.name)
+        # (whether a name may be in the stylesheet side namespace is decided by the comparison with the expected tree: a literal result element
+        # never is, xsl:element / xsl:attribute with that prefix are)
         stack.extend(c for c in e.children if c.kind == refxml.ELEM)
     return None
 
@@ -402,18 +406,83 @@ def case(ctx, idx, res):
         res.count('reference_error')
 
 
+def nscopy_case(ctx, idx, res):
+    """copying namespace nodes (xsl:copy-of select="namespace::..." and xsl:copy of a namespace node): the element that receives them gets the
+    declarations, prefix and URI as in the source, and no attribute; what it does not get is decided by what is selected"""
+    import gen_xml
+    r = rng_for(ctx.seed, 'c14n', idx)
+    runner = ctx.cache.get('runner')
+    if runner is None:
+        runner = ctx.cache['runner'] = XC.Runner(ctx, 'plain')
+    xml, info = gen_xml.gen_doc(r, size=r.choice([8, 15, 25]), ns=True)
+    doc = refxml.parse(xml)
+    elems = []
+
+    def walk(n):
+        for c in n.children:
+            if c.kind == refxml.ELEM:
+                elems.append(c)
+                walk(c)
+    walk(doc)
+    how = r.choice(['copy-of', 'copy', 'copy-of-some'])
+    sel = {'copy-of': 'namespace::*[name()]', 'copy': 'namespace::*[name()]', 'copy-of-some': 'namespace::*[name() and string-length(name()) mod 2 = 1]'}[how]
+    inner = '<xsl:copy-of select="%s"/>' % sel if how != 'copy' else '<xsl:for-each select="%s"><xsl:copy/></xsl:for-each>' % sel
+    xsl = ('<xsl:stylesheet version="1.0" xmlns:xsl="http://www.w3.org/1999/XSL/Transform"><xsl:template match="/"><out><xsl:for-each select="//*"><e>%s<xsl:attribute name="plain">v</xsl:attribute><i/></e></xsl:for-each></out></xsl:template></xsl:stylesheet>' % inner)
+    rx = runner.transform(xsl, xml, src=r.choice(['stream', 'parsed', 'parsedx']))
+    payload = {'stylesheet': xsl, 'document': xml}
+    res.count('nscopy_cases')
+    res.sig = ('nscopy', how)
+    if rx.status != 0:
+        res.viol('nscopy|fails', 'copying namespace nodes fails: %s' % rx.err[:200], payload)
+        return
+    try:
+        out = refxml.parse(XC._DECL.sub('', rx.out.decode('utf-8')))
+    except (refxml.ParseError, UnicodeDecodeError) as e:
+        res.viol('nscopy|not-well-formed', str(e)[:200], payload)
+        return
+    es = [c for c in [c for c in out.children if c.kind == refxml.ELEM][0].children if c.kind == refxml.ELEM]
+    if len(es) != len(elems):
+        res.viol('nscopy|structure', '%d result elements for %d source elements' % (len(es), len(elems)), payload)
+        return
+
+    def in_scope(n):
+        m = {}
+        chain = []
+        while n is not None and n.kind == refxml.ELEM:
+            chain.append(n)
+            n = n.parent
+        for a in reversed(chain):
+            for p_, u in a.nsdecls:
+                m[p_] = u
+        return dict((p_, u) for p_, u in m.items() if p_ and u)
+    for src_el, e in zip(elems, es):
+        want = in_scope(src_el)
+        if how == 'copy-of-some':
+            want = dict((p_, u) for p_, u in want.items() if len(p_) % 2 == 1)
+        got = in_scope(e)
+        attrs = sorted((a.uri, a.local) for a in e.attrs)
+        if attrs != [('', 'plain')]:
+            res.viol('nscopy|attributes', 'copying the namespace nodes of %s (%s) leaves the attributes %s on the result element (only "plain" was added)' % (src_el.name, how, attrs), payload)
+            return
+        if got != want:
+            res.viol('nscopy|declarations', 'copying the namespace nodes of %s (%s) gives the declarations %s, the source element has %s in scope' % (src_el.name, how, sorted(got.items()), sorted(want.items())), payload)
+            return
+    res.count('nscopy_elements_checked', len(es))
+
+
 def main():
     chk = Check('C14')
     chk.rule = ('generated nestings (depth <= 4) of literal result elements, xsl:element, xsl:attribute (static and AVT names / namespaces, prefixes incl. xml, xmlns, '
                 'ns0.. as the processor invents them, prefixes bound to different URIs at different depths, default namespace on/off/undeclared), attribute sets, '
                 'xsl:copy and xsl:copy-of of source nodes with their own namespace nodes, exclude-result-prefixes and namespace-alias; native and Xerces-wrapped '
-                'sources. A case is one stylesheet; all non-trivial; distinct = distinct set of constructs used.')
+                'sources; plus copies of namespace nodes (xsl:copy-of select="namespace::*[...]", xsl:copy of each) onto a new element for every element of generated documents with namespaces. A case is one stylesheet; all non-trivial; distinct = distinct set of constructs used.')
     chk.assumptions = ['the generator computes the expected tree while it writes the stylesheet; the reference interpreter only gives a second opinion (counted, not decisive)',
                        'an excluded namespace is "needed" on an element iff the element name or one of its attributes is in it']
     chk.ensure('plain', 'xvdrv')
     n = 60000 if chk.tier == 'quick' else 1500000
     chk.run_cases('c14', 'case', range(n))
-    chk.finish(min_nontrivial=100, required_stats=('trees_equal_expected', 'feature_lre', 'feature_copy', 'feature_copy-of', 'feature_attr-ns-xmlns', 'feature_attr-ns-xml'))
+    chk.run_cases('c14', 'nscopy_case', range(n // 20))
+    chk.finish(min_nontrivial=100, required_stats=('trees_equal_expected', 'feature_lre', 'feature_copy', 'feature_copy-of', 'feature_attr-ns-xmlns', 'feature_attr-ns-xml', 'nscopy_elements_checked'))
 
 
 if __name__ == '__main__':
